@@ -163,3 +163,37 @@ def run(ctx):
                               f"columns) over the admissible splits is {want}", {"n": n, "p": p, "m": m, "X": Xn.tolist(), "interval": [s, e], "score": got, "definition": want},
                               {"what": "scores-table-vs-definition", "multi_column": p > 1})
                 break
+    # ---- exhaustive grid of the interval construction alone: the float front end (oracle, recomputed with the library's NumPy expressions) must satisfy
+    # ---- the postconditions the theorems assume (lens_ok), and the integer part of the model must reproduce make_seeded_intervals exactly ----
+    from skchange.change_detectors.seeded_binseg import make_seeded_intervals
+    import itertools as _it
+    ms = [1, 2, 3, 5] if ctx.quick() else [1, 2, 3, 4, 5, 6]
+    gfs = [1.1, 1.5, 2.0] if ctx.quick() else GF + [1.01]
+    nmax = 26 if ctx.quick() else 80
+    grid, gmeta = [], []
+    for m_, g_ in _it.product(ms, gfs):
+        for maxlen_ in sorted(set([2 * m_, 2 * m_ + 1, 2 * m_ + 3, 3 * m_ + 2, 40, 200])):
+            for n_ in range(2 * m_, nmax + 1):
+                lens = ss.seeded_lens(n_, 2 * m_, maxlen_, g_)
+                ok_lens = len(lens) > 0 and all(2 * m_ <= ln_ <= min(maxlen_, n_) and st_ >= 1 for ln_, st_ in lens)
+                if not ok_lens:
+                    ctx.violation(f"make_seeded_intervals front end: interval lengths / steps {lens} violate 2m <= len <= min(max_interval_length, n), step >= 1 "
+                                  f"(n={n_}, m={m_}, max_interval_length={maxlen_}, growth_factor={g_})", {"n": n_, "m": m_, "maxlen": maxlen_, "g": g_, "lens": lens},
+                                  {"what": "front-end", "empty": len(lens) == 0})
+                    continue
+                st, en = make_seeded_intervals(n_, 2 * m_, maxlen_, g_)
+                impl = [(int(a), int(b)) for a, b in zip(st, en)]
+                grid.append(f"({n_}%nat, {m_}%nat, {maxlen_}%nat, {pairs_nat(lens)}, {pairs_nat(impl)})")
+                gmeta.append({"n": n_, "m": m_, "maxlen": maxlen_, "g": g_, "lens": lens, "impl_intervals": impl})
+                ctx.case({"grid": [n_, m_, maxlen_, g_]}, nontrivial=len(impl) > 1)
+    ctx.notes["interval_grid"] = f"exhaustive: m in {ms}, growth factors {gfs}, six max_interval_length values per m, every n in [2m, {nmax}]: {len(grid)} configurations"
+    GH = HEADER + ("\nDefinition iv_case := (nat * nat * nat * list (nat * nat) * list (nat * nat))%type.\n"
+                   "Definition iv_ok (c : iv_case) : bool := let '(n, m, maxlen, lens, impl) := c in\n"
+                   "  let ivs := seeded_intervals n (2 * m) lens in\n"
+                   "  (length ivs =? length impl)%nat && forallb (fun xy => pair_eqb (fst xy) (snd xy)) (combine ivs impl)\n"
+                   "  && negb (match impl with [] => true | _ => false end)\n"
+                   "  && forallb (fun se => (fst se <? snd se)%nat && (snd se <=? n)%nat && (2 * m <=? snd se - fst se)%nat && (snd se - fst se <=? Nat.min maxlen n)%nat) impl.")
+    for i in coq_bad_cases(ctx.cid, GH, "iv_case", "iv_ok", grid, shard=400, tag="grid")[:15]:
+        g = gmeta[i]
+        ctx.violation(f"make_seeded_intervals(n={g['n']}, min_length={2 * g['m']}, max_length={g['maxlen']}, growth_factor={g['g']}) = {g['impl_intervals']}: not the intervals "
+                      f"of the model for lengths/steps {g['lens']}, or outside [0,n] / the length bounds", g, {"what": "interval-construction"})
